@@ -15,12 +15,19 @@ def alloc_of(st):
 
 
 def is_fresh(fv, st, v):
-    """not allocated in the pre-state of the function"""
-    return z3.Not(z3.Select(ALLOC0, box(v)))
+    """not allocated in the pre-state of the contract"""
+    return z3.Not(z3.Select(pre_alloc(fv), box(v)))
+
+
+def pre_alloc(fv):
+    """allocation set in the pre-state of the contract being evaluated"""
+    if fv.old_state is not None and '__alloc' in fv.old_state.env:
+        return fv.old_state.env['__alloc'].term
+    return ALLOC0
 
 
 def is_allocated_old(fv, st, v):
-    return z3.Select(ALLOC0, box(v))
+    return z3.Select(pre_alloc(fv), box(v))
 
 
 def frame_check(fv, st, base, attr, node):
@@ -73,7 +80,9 @@ def deepcopy_obj(fv, v, node, st, shallow):
     if c is None:
         fv.err(node, 'no @external contract for copy/deepcopy')
     from .calls import apply_contract
-    return apply_contract(fv, c, node, st, False, None)
+    r = apply_contract(fv, c, node, st, False, None)
+    # the copy has the static type of the original
+    return SV(r.term, v.ty.strip_opt() if v.ty.strip_opt().is_obj else r.ty)
 
 
 def unchanged(fv, node, st):
@@ -86,6 +95,9 @@ def unchanged(fv, node, st):
     for f in names:
         for key, fty in fv.field_variants(f):
             cur = fv.heap_array(st, f, fty)
-            old = z3.Const('H_%s!0' % key, z3.ArraySort(P.V, zsort(fty)))
+            # the heap of the contract's pre-state (function entry when verifying, the call-time heap when applying)
+            old = fv.old_state.heap.get(key) if fv.old_state is not None else None
+            if old is None:
+                old = z3.Const('H_%s!0' % key, z3.ArraySort(P.V, zsort(fty)))
             conj.append(z3.Select(cur, o.term) == z3.Select(old, o.term))
     return z3.And(*conj) if conj else z3.BoolVal(True)
